@@ -291,13 +291,18 @@ def run(chk):
                        'documents are rendered in an empty directory (no .paux of an earlier run or of another document)',
                        'asset links (css, js, svg sprites) are checked only in the variant that copies the theme extras']
     behs = []
-    plan = [(2, 1), (3, 0)] if tier == 'quick' else [(3, 1), (2, 2), (4, 0)]
-    for mn, mr in plan:
-        res = tlc.run('Split', cfg_text=CFG % (mn, '"default", "title", "single"', mr, '"none", "own", "index"'), timeout=3400, heap='12g')
+    noemit = CFG.replace('INVARIANT Emit\n', '')
+    LK = '"none", "own", "index"'
+    # design check at the larger bounds without printing, behaviours printed at the smaller ones
+    for mn, mr, lk in ([(2, 2, LK), (3, 0, LK)] if tier == 'quick' else [(3, 1, LK), (2, 2, LK), (4, 0, '"none", "own"')]):
+        res = tlc.run('Split', cfg_text=noemit % (mn, '"default", "title", "single"', mr, lk), timeout=3400, heap='12g', want_beh=False)
         chk.add_tlc(res, 'links(MaxNodes=%d,refs<=%d)' % (mn, mr))
         if not res.ok:
             chk.violation('design:' + ','.join(res.violated or ['error']),
                           'TLC found a counterexample in the Split design: %s\n%s' % (res.violated, res.trace_text[:2500]))
+    for mn, mr in ([(2, 1)] if tier == 'quick' else [(2, 1), (3, 0)]):
+        res = tlc.run('Split', cfg_text=CFG % (mn, '"default", "title", "single"', mr, LK), timeout=3400, heap='12g')
+        chk.add_tlc(res, 'links-emit(MaxNodes=%d,refs<=%d)' % (mn, mr))
         behs.extend(res.beh)
     # longer documents with several references by simulation
     nsim, dsim = (400, 9) if tier == 'quick' else (6000, 12)
